@@ -161,3 +161,26 @@ Definition do_decrypt (data out key iv : bytes) : result :=
     then loop (dec_iter (D key)) (iterations (length data)) 0 s
     else (Failed, s)).
 End Run.
+
+(* ---- histories of calls ----
+   internal/aes_ige has no package-level variables and a Cipher is created per call, so nothing is
+   carried from one call to the next.  A process that makes the calls [cs] one after the other -
+   whatever buffers the caller reuses or overwrites in between: each call is described by the VALUES
+   its arguments hold at the moment it is made - therefore produces [run_history cs]: every call is
+   answered by the same pure function of its own arguments.  (A cache of key schedules keyed by the
+   caller's key slice, say, would need a state threaded through this definition.)  That the code
+   really behaves like this is what the correspondence over call sequences with shared, overwritten
+   buffers checks (harness/root/cmd/c05, lines tagged s<k>.<i>). *)
+Inductive call :=
+| CEnc (data out key iv : bytes)      (* doAES256IGEencrypt(data, out, key, iv) *)
+| CDec (data out key iv : bytes).     (* doAES256IGEdecrypt(data, out, key, iv) *)
+
+Section History.
+Variables E D : bytes -> bytes -> bytes.
+Definition run_call (c : call) : result :=
+  match c with
+  | CEnc data out key iv => do_encrypt E data out key iv
+  | CDec data out key iv => do_decrypt D data out key iv
+  end.
+Definition run_history (cs : list call) : list result := map run_call cs.
+End History.
